@@ -56,6 +56,11 @@ def jobs(tier, seed):
         for a, b, c in itertools.product(red, red, last):
             js.append(dict(items=[a, b, c], mode='few'))
     js.append(dict(items=[['biglf', 'cl', 'text'], ['canon', 'cl', 'text']], mode='few'))
+    # bodies longer than the client's 4096-byte read size
+    for b in A.BIG_BODIES:
+        for fr in ('cl', 'chunked1', 'chunked_ext', 'close', 'overrun'):
+            js.append(dict(items=[['canon', fr, b]], mode='few'))
+        js.append(dict(items=[['lf', 'chunked_ext', b], ['canon', 'cl', b]], mode='few'))
     # an over-long body FIRST, then another exchange: the surplus must go away with the
     # connection (only deliveries in which the surplus arrives together with the last body
     # byte are offered, DESIGN.md section 6)
@@ -87,6 +92,9 @@ def run_job(job):
     else:
         plans = [[], list(range(1, total)), [total // 3, (2 * total) // 3],
                  list(range(1, total, 7))]
+        if total > 4096:
+            plans += [[c + d] for c in range(4096, total, 4096) for d in (-1, 0, 1)] + \
+                [list(range(4096, total, 4096)), list(range(1000, total, 1000))]
     seen = set()
     for ri, rec in enumerate(REC):
         for cuts in plans:
